@@ -288,7 +288,20 @@ def _r3_r9(ctx):
         fam = P.family(f)
         anyc = [1 for x in fam for _, tm in x.calls() if (callee_name(tm) or "").endswith("Iterator>::any") or (callee_name(tm) or "") == "std::iter::Iterator::any"]
         allc = [1 for x in fam for _, tm in x.calls() if (callee_name(tm) or "").endswith("Iterator>::all") or (callee_name(tm) or "") == "std::iter::Iterator::all"]
-        ctx.check(bool(anyc) and not allc, "R9", "subnet-list-matches-any-member", ctx.where(b), "a subnet list matches when any member contains the client")
+        okk = bool(anyc) and not allc
+        if not okk and not allc:
+            # the same search written (or rewritten by the inliner) as a loop: a member that contains the client ends the loop
+            for x in fam:
+                xcfg = cfg_of(x)
+                loops = [xcfg.natural_loop(e) for e in xcfg.back_edges()]
+                for sbb, d, te, fe in bool_switches(P, x, lambda d: d[0] == "call" and str(d[1]).rsplit("::", 1)[-1] in ("check_subnet", "contains")):
+                    mine = [l for l in loops if sbb in l]
+                    if mine:
+                        loop = min(mine, key=len)
+                        if te and all(tgt not in loop or not (set(xcfg.reachable_from(tgt)) & {sbb}) or _leaves(xcfg, tgt, loop) for _, tgt in te) and \
+                                all(_stays(xcfg, tgt, loop) for _, tgt in fe):
+                            okk = True
+        ctx.check(okk, "R9", "subnet-list-matches-any-member", ctx.where(b), "a subnet list matches when any member contains the client")
         # absent condition => true
         dfl = []
         for bb, tm in b.calls():
@@ -507,6 +520,24 @@ def _r6(ctx):
                 ctx.saw(b)
                 ctx.check(any((callee_name(tm) or "").endswith(inner) for _, tm in b.calls()), "R6",
                           "mapped-branch-delegates:%s" % suffix.split(" ")[0], ctx.where(b), "the IPv4-mapped branch must delegate to IPv4 containment")
+
+
+def _leaves(cfg, tgt, loop):
+    """from tgt the loop is left without coming back to its header (straight-line)"""
+    seen = set()
+    x = tgt
+    for _ in range(12):
+        if x not in loop:
+            return True
+        if x in seen or len(cfg.succ[x]) != 1:
+            return False
+        seen.add(x)
+        x = cfg.succ[x][0]
+    return False
+
+
+def _stays(cfg, tgt, loop):
+    return tgt in loop
 
 
 def _ctor_rejects_host_bits(P, self_ty):
